@@ -33,6 +33,7 @@ var (
 	ErrDBExists          = errors.New("database already exists")
 	ErrDBNotExist        = errors.New("database does not exist")
 	ErrDBNotSelected     = errors.New("database not been selected")
+	ErrDBNameInvalid     = errors.New("database name must not be a path")
 	ErrFieldAmbiguous    = errors.New("field is ambiguous")
 	ErrFieldNotFound     = errors.New("field not found")
 	ErrTableAlreadyExist = errors.New("table already exists")
@@ -360,6 +361,9 @@ func ShowDB() ([]*Row, []*Field, error) {
 }
 
 func CreateDB(dbName string) error {
+	if !validDBName(dbName) {
+		return ErrDBNameInvalid
+	}
 	if err := makeDBDir(dbName); err != nil {
 		return fmt.Errorf("error making db dir: %w", err)
 	}
